@@ -16,7 +16,7 @@ T = {
  'C32-s1': ('C32', 'loop index holds a known constant immediately before the DO loop and is used in the body', 'missed; caught after index-const-before-loop templates (9 violations)', 'caught-after-strengthening'),
 
  'C21-s1': ('C21', 'nested type-bound item name (t_mod#t%yay%proc) with a config key naming the intermediate component (t%yay)', 'caught by ./check C21 (match_single_key(8, 8, True, True))', 'caught'),
- 'C23-s1': ('C23', 'unqualified USE + a call spelled with upper-case letters: ItemFactory.get_or_create_module_definitions_from_candidates compares case-sensitively', 'MISSED: the change is in graph construction (ItemFactory), which the partial C23 claim (item identity / name-handling kernel) does not cover; no solver-decidable kernel was found for it', 'missed-outside-claim'),
+ 'C23-s1': ('C23', 'unqualified USE + a call spelled with upper-case letters: ItemFactory.get_or_create_module_definitions_from_candidates compares case-sensitively', 'missed at first (graph construction was outside the partial claim); caught after the look-up kernel itself became a CrossHair condition (definition_lookup(2, 1): pool of name / module spellings on a module read by the REGEX frontend)', 'caught-after-strengthening'),
  'C26-s1': ('C26', 'variable written in one CASE branch and read in a later CASE branch dropped from uses_symbols of the SELECT CASE', 'caught by ./check C26 (dataflow:uses_symbols:MultiConditional:select-case:t)', 'caught'),
  'C33-s1': ('C33', 'outline pragma with explicit out(v) for a variable the analysis derives as inout, plus another derived out variable', 'missed; caught after pragma-narrows-inout-to-out / pragma-out-plus-derived-out templates', 'caught-after-strengthening'),
  'C34-s1': ('C34', 'rank-reducing section with the fixed subscript not last (a(i,:,:)) passed to an assumed-shape dummy, then explicit-shape transformation', 'missed; caught after argshape/section-* templates', 'caught-after-strengthening'),
